@@ -104,6 +104,10 @@ CLASSES = {
 }
 
 
+# module-level aliases of classes (`PDDLConstant = PDDLObject`)
+ALIASES = {"PDDLConstant": "PDDLObject"}
+
+
 def field_owner(cls, field):
     """(owner class, type) of a field, searching base classes."""
     seen = [cls]
